@@ -109,6 +109,13 @@ def configs(tier, seed):
                       ("rw", {"dict": [["ch", {"list": [L("RW", 2), L("W", 3)]}], ["ch_0", L("R", 4)], ["ch_1", L("RW", 1)]]}),
                       ("r", {"dict": [["a", {"dict": [["b", {"dict": [["c", L("R", 2)]]}]]}], ["a_b", {"dict": [["c", L("R", 3)]]}], ["a_b_c", L("R", 1)]]})):
         out.append({"acc": acc, "tree": tree, "style": "arg", "second": False})
+    # lists of more than ten fields of different widths (index 10 sorts before index 2 as a string), as argument and
+    # as class annotation, also nested inside a dict next to other members
+    long_list = {"list": [L(("RW", "R", "W")[i % 3], 1 + (i * 5) % 7) for i in range(12)]}
+    for style in ("arg", "annot"):
+        out.append({"acc": "rw", "tree": {"dict": [["ch", long_list], ["tail", L("RW", 3)]]}, "style": style, "second": False})
+        out.append({"acc": "rw", "tree": {"dict": [["a", L("R", 2)], ["grp", {"dict": [["lanes", long_list]]}]]}, "style": style,
+                    "second": style == "annot"})
     # an unservable field at ANY position of ANY collection shape must be refused (executed, not solved)
     import copy
     k = 0
@@ -306,7 +313,11 @@ def _structural(cfg):
     leaves = list(_walk(cfg["tree"], reg.f))
     total = sum(_width(t["shape"]) for t, _ in leaves)
     order_ok = [id(fa) for _, fa in leaves] == [id(fa) for _, fa in reg]
-    return reg.element.width == total and order_ok
+    # ... and the field found at a declared position IS the one declared there (its action class and width)
+    from amaranth.hdl import Shape
+    kind_ok = all(type(fa) is getattr(action, t["leaf"]) and Shape.cast(fa.port.shape).width == _width(t["shape"])
+                  for t, fa in leaves)
+    return reg.element.width == total and order_ok and kind_ok
 
 
 def _table(cfg):
